@@ -48,7 +48,7 @@ def LockOut (tbl : Table) (fs : FlagMap) (inpW : Bytes) (δ : Nat) (K : Nat → 
          (rs.1.c.isLast = false → BCore tbl fs inpW d' d' 0 rs.1 rw.1)
    | some (.directive dr bm), some (.directive dr' bm') =>
        SigRel δ 0 (some (.directive dr bm)) (some (.directive dr' bm')) ∧
-       ∃ ab'', MRel δ 0 0 ab'' .none rs.1 rw.1 ∧ K 0 rs.1.x.sink rw.1.x.sink
+       ∃ ab'', MRel δ 0 0 ab'' .none rs.1 rw.1 ∧ K 0 rs.1.x.sink rw.1.x.sink ∧ ScanIdle rs.1.r
    | a, b => SigRel δ 0 a b)
 
 /-- what the split run's sink has received in a breaking step: nothing, or one text lexeme (`eoc` arm) -/
